@@ -274,124 +274,6 @@ Proof.
   rewrite <- Z.add_opp_r, inject_Z_plus, inject_Z_opp, inject_Z_mult. unfold Qminus. reflexivity.
 Qed.
 
-(* ---- the implementation's floor division (sympy operand classes) ---------------- *)
-Lemma quirk_is_int_a lsym a b : floordiv_quirk lsym a b = true -> is_int a = true /\ is_int (a / b) = true.
-Proof.
-  unfold floordiv_quirk. intro H.
-  apply andb_prop in H. destruct H as [H _].
-  apply andb_prop in H. destruct H as [H Hq].
-  apply andb_prop in H. destruct H as [H _].
-  apply andb_prop in H. destruct H as [_ Ha]. split; assumption.
-Qed.
-
-Lemma trunc_path_facts rsym a b : floordiv_trunc_path rsym a b = true -> is_int a = false /\ is_int b = true.
-Proof.
-  unfold floordiv_trunc_path. intro H.
-  apply andb_prop in H. destruct H as [H Hb].
-  apply andb_prop in H. destruct H as [H _].
-  apply andb_prop in H. destruct H as [_ Ha].
-  apply negb_true_iff in Ha. split; assumption.
-Qed.
-
-Lemma quirk_not_trunc lsym rsym a b : floordiv_quirk lsym a b = true -> floordiv_trunc_path rsym a b = false.
-Proof.
-  intro H. destruct (quirk_is_int_a _ _ _ H) as [Ha _].
-  destruct (floordiv_trunc_path rsym a b) eqn:E; [|reflexivity].
-  destruct (trunc_path_facts _ _ _ E) as [Ha' _]. rewrite Ha in Ha'. discriminate Ha'.
-Qed.
-
-Lemma floordiv_impl_outside lsym rsym a b :
-  floordiv_quirk lsym a b = false -> floordiv_trunc_path rsym a b = false ->
-  vfloordiv_impl lsym rsym a b = vfloordiv a b.
-Proof. intros H1 H2. unfold vfloordiv_impl, vfloordiv. rewrite H1, H2. reflexivity. Qed.
-
-Lemma floordiv_impl_pyint a b : vfloordiv_impl false false a b = vfloordiv a b.
-Proof. apply floordiv_impl_outside; reflexivity. Qed.
-
-(* class (1): one too small *)
-Lemma floordiv_impl_quirk lsym rsym a b : ~ b == 0 ->
-  floordiv_quirk lsym a b = true -> vfloordiv_impl lsym rsym a b == vfloordiv a b - 1.
-Proof.
-  intros Hb H. unfold vfloordiv_impl, vfloordiv, qfloor.
-  rewrite (proj2 (is_zero_false b) Hb), (quirk_not_trunc _ rsym _ _ H), H, Qred_correct.
-  destruct (quirk_is_int_a _ _ _ H) as [_ Hq].
-  apply is_int_iff in Hq. destruct Hq as [z Hz].
-  rewrite (Qfloor_comp _ _ Hz), Qfloor_Z, Hz. reflexivity.
-Qed.
-
-(* class (2): the left operand is truncated toward zero first *)
-Lemma floordiv_impl_trunc lsym rsym a b : ~ b == 0 ->
-  floordiv_trunc_path rsym a b = true ->
-  vfloordiv_impl lsym rsym a b = inject_Z (Qfloor (inject_Z (qtrunc a) / b)).
-Proof.
-  intros Hb H. unfold vfloordiv_impl, qfloor. rewrite (proj2 (is_zero_false b) Hb), H. reflexivity.
-Qed.
-
-(* ... which is harmless when the operands have the same sign *)
-Lemma quot_div_same_sign p q n :
-  (0 < q)%Z -> (n <> 0)%Z -> (0 <= p * n)%Z -> ((p ÷ q) / n = p / (q * n))%Z.
-Proof.
-  intros Hq Hn Hs. destruct (Z_lt_le_dec 0 n) as [Hpos|Hneg].
-  - assert (Hp : (0 <= p)%Z) by nia.
-    rewrite Z.quot_div_nonneg by lia. apply Z.div_div; lia.
-  - assert (Hp : (p <= 0)%Z) by nia.
-    pose (m := (- p)%Z). pose (k := (- n)%Z).
-    assert (Hm : (0 <= m)%Z) by (unfold m; lia). assert (Hk : (0 < k)%Z) by (unfold k; lia).
-    replace p with (- m)%Z by (unfold m; lia). replace n with (- k)%Z by (unfold k; lia).
-    clearbody m k.
-    rewrite Z.quot_opp_l by lia. rewrite Z.div_opp_opp by lia.
-    rewrite Z.quot_div_nonneg by lia. rewrite Z.div_div by lia.
-    rewrite Z.mul_opp_r. rewrite Z.div_opp_opp by nia. reflexivity.
-Qed.
-
-Lemma trunc_floor_same_sign a b : is_int b = true -> ~ b == 0 -> 0 <= a * b ->
-  qfloor (inject_Z (qtrunc a) / b) = qfloor (a / b).
-Proof.
-  intros Hi Hb Hs. apply is_int_iff in Hi. destruct Hi as [n Hn].
-  assert (Hnz : n <> 0%Z) by (intro E; apply Hb; rewrite Hn, E; reflexivity).
-  destruct a as [p q]. unfold qfloor, qtrunc. cbn [Qnum Qden]. f_equal.
-  rewrite Hn, Qmult_inject_Z_r in Hs.
-  assert (Hs' : (0 <= p * n)%Z) by (unfold Qle in Hs; simpl in Hs; lia).
-  assert (E1 : inject_Z (p ÷ Z.pos q) / b == inject_Z (p ÷ Z.pos q) / inject_Z n)
-    by (rewrite Hn; reflexivity).
-  assert (E2 : (p # q) / b == inject_Z p / inject_Z (Z.pos q * n)).
-  { rewrite Hn, (Qmake_Qdiv p q), inject_Z_mult. field.
-    split; apply inject_Z_nonzero; lia. }
-  rewrite (Qfloor_comp _ _ E1), (Qfloor_comp _ _ E2), <- !Zdiv_Qdiv.
-  apply quot_div_same_sign; lia.
-Qed.
-
-(* outside the two recorded operand classes the implementation is the exact floor *)
-Lemma floordiv_impl_partial lsym rsym a b :
-  floordiv_defect_class lsym rsym a b = false -> vfloordiv_impl lsym rsym a b = vfloordiv a b.
-Proof.
-  unfold floordiv_defect_class. intro H. apply orb_false_elim in H. destruct H as [Hq Ht].
-  unfold vfloordiv_impl, vfloordiv. destruct (is_zero b) eqn:Ez; [reflexivity|].
-  rewrite Hq. destruct (floordiv_trunc_path rsym a b) eqn:Et; [|reflexivity].
-  simpl in Ht. apply negb_false_iff in Ht. apply Qle_bool_iff in Ht.
-  destruct (trunc_path_facts _ _ _ Et) as [_ Hb].
-  apply trunc_floor_same_sign; [exact Hb | apply is_zero_false; exact Ez | exact Ht].
-Qed.
-
-Lemma floordiv_impl_int lsym rsym a b : is_int (vfloordiv_impl lsym rsym a b) = true.
-Proof.
-  unfold vfloordiv_impl, qfloor. destruct (is_zero b); [exact (is_int_inject_Z 0)|].
-  destruct (floordiv_trunc_path rsym a b); [apply is_int_inject_Z|].
-  destruct (floordiv_quirk lsym a b) eqn:H; [|apply is_int_inject_Z].
-  destruct (quirk_is_int_a _ _ _ H) as [_ Hq].
-  apply is_int_iff in Hq. destruct Hq as [z Hz]. apply is_int_iff. exists (z + -1)%Z.
-  rewrite Qred_correct, Hz, inject_Z_plus. reflexivity.
-Qed.
-
-Lemma floordiv_impl_refuted :
-  (exists a b, ~ b == 0 /\ ~ vfloordiv_impl true true a b == vfloordiv a b)
-  /\ (exists a b, ~ b == 0 /\ ~ vfloordiv_impl true true a b == vfloordiv a b /\ is_int a = false).
-Proof.
-  split.
-  - exists (-4 # 1), (1 # 2). split; intro H; vm_compute in H; discriminate H.
-  - exists (-7 # 2), (1 # 1). split; [|split]; try reflexivity; intro H; vm_compute in H; discriminate H.
-Qed.
-
 (* ---- expression trees: chained model arithmetic = field arithmetic ------------- *)
 Lemma tree_total e : eval_model e == eval_Q e.
 Proof.
@@ -426,27 +308,27 @@ Definition is_number (c : cval) : Prop :=
 Lemma canon_is_number a : is_number (canon a).
 Proof. unfold canon. destruct (Pos.eqb (Qden (Qred a)) 1); exact I. Qed.
 
-Lemma run_op_number o lsym rsym a b : (o = OMod -> ~ b == 0) -> is_number (run_op o lsym rsym a b).
+Lemma run_op_number o a b : (o = OMod -> ~ b == 0) -> is_number (run_op o a b).
 Proof.
   intro H. destruct o; simpl; try apply canon_is_number.
   unfold vmod_impl. rewrite (proj2 (is_zero_false b) (H eq_refl)). apply canon_is_number.
 Qed.
 
-Lemma run_op_exact o lsym rsym a b : ~ b == 0 -> floordiv_defect_class lsym rsym a b = false ->
-  run_op o lsym rsym a b =
+Lemma run_op_exact o a b : ~ b == 0 ->
+  run_op o a b =
   canon (match o with
          | OAdd => a + b | OSub => a - b | OMul => a * b | ODiv => a / b
          | OMod => a - b * inject_Z (Qfloor (a / b))
          | OFloordiv => inject_Z (Qfloor (a / b))
          end).
 Proof.
-  intros Hb Hq. destruct o; simpl.
+  intros Hb. destruct o; simpl.
   - apply canon_eq_iff, vadd_exact.
   - apply canon_eq_iff, vsub_exact.
   - apply canon_eq_iff, vmul_exact.
   - apply canon_eq_iff, vdiv_total.
   - unfold vmod_impl. rewrite (proj2 (is_zero_false b) Hb). apply canon_eq_iff, vmod_exact.
-  - rewrite (floordiv_impl_partial _ _ _ _ Hq). unfold vfloordiv, qfloor.
+  - unfold vfloordiv, qfloor.
     rewrite (proj2 (is_zero_false b) Hb). reflexivity.
 Qed.
 
@@ -478,21 +360,6 @@ Proof. vm_compute. split; reflexivity. Qed.
 Lemma ex_int : (-3 <> 0)%Z /\ vfloordiv (inject_Z 7) (inject_Z (-3)) = inject_Z (-3)
   /\ vmod (inject_Z 7) (inject_Z (-3)) = inject_Z (-2).
 Proof. split; [discriminate|]. vm_compute. split; reflexivity. Qed.
-
-Lemma ex_quirk :
-  floordiv_quirk true (-4 # 1) (1 # 2) = true
-  /\ vfloordiv_impl true true (-4 # 1) (1 # 2) = (-9 # 1) /\ vfloordiv (-4 # 1) (1 # 2) = (-8 # 1)
-  /\ floordiv_quirk true (-7 # 1) (1 # 2) = true
-  /\ floordiv_quirk true (-7 # 2) (1 # 2) = false /\ floordiv_quirk true (4 # 1) (1 # 2) = false
-  /\ floordiv_quirk true (-4 # 1) (3 # 5) = false /\ floordiv_quirk false (-4 # 1) (1 # 2) = false
-  /\ floordiv_trunc_path true (-7 # 2) (1 # 1) = true
-  /\ vfloordiv_impl true true (-7 # 2) (1 # 1) = (-3 # 1) /\ vfloordiv (-7 # 2) (1 # 1) = (-4 # 1)
-  /\ vfloordiv_impl true true (7 # 2) (-1 # 1) = (-3 # 1) /\ vfloordiv (7 # 2) (-1 # 1) = (-4 # 1)
-  /\ floordiv_trunc_path false (-7 # 2) (1 # 1) = false /\ floordiv_trunc_path true (1 # 2) (-8 # 1) = false
-  /\ floordiv_defect_class true true (7 # 2) (3 # 1) = false /\ vfloordiv_impl true true (7 # 2) (3 # 1) = (1 # 1)
-  /\ floordiv_defect_class true true (-7 # 2) (2 # 1) = true /\ vfloordiv_impl true true (-7 # 2) (2 # 1) = vfloordiv (-7 # 2) (2 # 1)
-  /\ floordiv_defect_class false false (-7 # 2) (2 # 1) = false /\ floordiv_defect_class true true (-7 # 2) (2 # 3) = false.
-Proof. vm_compute. repeat split. Qed.
 
 Definition ex_tree : expr :=
   EDiv (ESub (EMul (L 3 2) (L (-4) 1)) (EAdd (L 1 3) (L 5 6))) (EDiv (L 7 1) (ESub (L 1 2) (L 2 1))).
